@@ -145,9 +145,26 @@ def known_finding_probe(ctx, viol):
         viol.append({"signature": "rect-slack-facets-ne-objectives", "message": f"PaVeBaGP(type='IH') with a 6-facet cone on 3 objectives raised {rec['exception']}", "replay": {"spec": algcommon.jsonable(spec), "what": "facets-ne-objectives"}})
 
 
+def budget_exact_recs(ctx):
+    """PaVeBaPartialGP runs whose cost budget is met EXACTLY (unit costs, one evaluation per step) while
+    designs are still active; the steps after that must be idle and report completion"""
+    import random
+    recs = []
+    for a in [x for x in algrun.ALGOS if x.startswith("PaVeBaPartialGP")]:
+        for b in ([1.0, 2.0] if ctx.quick else [1.0, 2.0, 3.0, 4.0]):
+            spec = scenarios.make_spec(random.Random(int(b) * 31 + ctx.seed), a, valid=True, small=True)
+            m = len(spec["Y"][0])
+            spec["hw"] = [[[h * 64 for h in row] for row in rnd] for rnd in spec["hw"]]     # nothing is decided early
+            spec.update({"costs": [1.0] * m, "budget": b, "batch": 1, "style": "budget-exact"})
+            recs.append(scenarios.run_spec(spec, max_steps=int(b) + 3))
+    return recs
+
+
 def run(ctx):
     n = 8 if ctx.quick else 60
     recs = scenarios.collect(ctx, algrun.ALGOS, n, small=ctx.quick)
+    brecs = budget_exact_recs(ctx)
+    recs += brecs
     viol, stats = [], {}
     for r in recs:
         check_record(r, viol)
@@ -159,6 +176,9 @@ def run(ctx):
         b = r["kw"].get("batch", 1); batches[b] = batches.get(b, 0) + 1
     moved = sum(1 for r in recs for s in r["steps"] if s["pre"]["S"] != s["post"]["S"])
     ex = algcommon.summarize(recs, None); ex.update(stats); ex["batch_sizes"] = batches
+    ex["budget_exact_runs"] = len(brecs)
+    ex["budget_exact_runs_reaching_budget_with_active_designs"] = sum(
+        1 for r in brecs if any(s["pre"]["S"] and s["pre"]["total_cost"] >= r["kw"]["budget"] for s in r["steps"] if not s["exc"]))
     return {"evaluations": steps + stats.get("real_model_steps", 0), "distinct_nontrivial": moved, "traces": len(recs),
             "rule": "whole runs (every prefix checked) of the 8 stub-driven variants with batch sizes 1,2,3,7 (larger than the active set), costs/budgets, plus one extra step after completion; NaiveElimination, DecoupledGP with real models; after every step: S shrinks, P grows, S/P disjoint, U in P, no return to S, completion flag == completion condition, idle after completion, round+1 per active step, sample_count == evaluations requested from the recording proxy, total_cost == summed per-objective costs; non-trivial = steps in which S changed",
             "samples": [algcommon.jsonable({k: v for k, v in recs[i]["spec"].items() if k not in ("means", "hw")}) for i in range(min(3, len(recs)))],
